@@ -400,6 +400,21 @@ M = [
                             if cx.sweep.is_some() && !cx.sweep.zip(cx.all.get()).is_some_and(|(a, b)| a.addr_eq(b)) {
                                 cx.sweep_prev.set(cx.all.get());
                             }"""),
+ ("m51_bounded_work_queue", ["C01", "C06"], "src/context.rs",
+  """    fn push(&self, val: T) {
+        unsafe {
+            (*self.vec.get()).push(val);
+        }
+    }""",
+  """    fn push(&self, val: T) {
+        // keep the collector's work queues from growing without bound
+        unsafe {
+            let v = &mut *self.vec.get();
+            if v.len() < (1 << 15) {
+                v.push(val);
+            }
+        }
+    }"""),
  ("m50_dynamic_root_drop_after_arena", ["C14"], "src/dynamic_roots.rs",
   """        if let Some(slots) = self.slots.upgrade() {
             slots.borrow_mut().dec(self.index);
